@@ -180,7 +180,8 @@ NOT_YET = "check not built yet (see DESIGN.md section 7 for the build order); no
 
 # what round 3 (blind seeds + white-box reviews, DESIGN.md section 8.7) added to the scenario spaces / oracles
 ROUND3 = {
-    "C01": "Round 3: configurations in which a pair trades on a finer grid than its symbols' own precision (K24, K25).",
+    "C01": "Round 3: configurations in which a pair trades on a finer grid than its symbols' own precision (K24, K25). Round 6: an "
+           "account that starts with a debt (negative initial balance) next to margin loans in the same symbol (K38).",
     "C02": "Round 3: get_balance(symbol) for every symbol (and unknown ones) and get_loans(is_open=True) compared with the "
            "plain listings on every transition; pair grid finer than the symbol grid. Round 4: the account is read by a job at "
            "each bar's own time (before the bar is processed) and before every action, in both drivers.",
@@ -193,7 +194,8 @@ ROUND3 = {
            "precision reconfigured after an order of the pair was processed.",
     "C05": "Round 3: every get_orders(pair, is_open) combination and the fields of get_open_orders() entries compared with "
            "get_orders(); all 3-cycles of a tiny alphabet x every phase of the open-list re-index (polls before the run); "
-           "precision configured through default_pair_info only.",
+           "precision configured through default_pair_info only. Round 6: orders and cancellations made by a job scheduled between "
+           "two bars (K39), in both drivers.",
     "C06": "Round 3: sells whose minimum fee exceeds the proceeds filled in pieces (K23), default_pair_info only (K27), "
            "stop-limit boundary with stop != limit.",
     "C07": "Round 3: roll-back of an auto-borrow request at its second loan with a minimum interest and the margin level at "
